@@ -382,6 +382,18 @@ impl<'a> GeneratorState<'a> {
     {
         let mut acc_in_use = self.acc_in_use;
         let signed;
+        if *op == Operation::Bls(false) && !matches!(left, ExprType::Immediate(_)) {
+            if let ExprType::Immediate(v) = right {
+                if *v == 0 {
+                    // Nothing is shifted: each byte of the result is the byte of the operand
+                    return Ok(left.clone());
+                }
+                if high_byte && *v < 8 {
+                    // The bits that move from the low byte to the high byte are not computed
+                    return Err(self.compiler_state.syntax_error("Incorrect right value for left shift operation on short (constant 8 only supported)", pos));
+                }
+            }
+        }
         if high_byte && *op == Operation::Brs(false) {
             // High byte of an 8 bits value shifted to the right: only its sign is left
             let eight_bits_signed = match left {
